@@ -31,7 +31,7 @@ template <int K> void jacobi(LD a[K][K], LD w[K], LD V[K][K]) {
 }
 static LD F(int id, LD x) { return mpref_eval1_ld(id, x); }
 
-struct Ref1L { LD chi0, cha, s_chi0, s_cha; bool ok; };
+struct Ref1L { LD chi0, cha, s_chi0, s_cha; bool ok; LD dropped_cha = 0; bool cha_below_10eps = false; };   // dropped_cha: the F2C terms whose argument lies in (0, 10 eps)
 
 // Eqs. (2.11a,b) of arXiv:1311.1775 with real orthogonal neutralino mixing and signed eigenvalues
 static Ref1L mssm_ref(double g1, double g2, double vd, double vu, double mu, double M1, double M2, double ml2, double me2, double y, double T, double mm) {
@@ -56,16 +56,28 @@ static Ref1L mssm_ref(double g1, double g2, double vd, double vu, double mu, dou
    LD X[2][2] = {{M2, g2 * vu / s2}, {g2 * vd / s2, mu}};
    LD XtX[2][2] = {{X[0][0] * X[0][0] + X[1][0] * X[1][0], X[0][0] * X[0][1] + X[1][0] * X[1][1]}, {X[0][0] * X[0][1] + X[1][0] * X[1][1], X[0][1] * X[0][1] + X[1][1] * X[1][1]}};
    LD d2[2], V[2][2]; jacobi<2>(XtX, d2, V);
+   // left singular vectors from X X^T (eigenvectors are well conditioned when the two singular values are far apart; u = X v / d is not when d is tiny), the small
+   // singular value from det X / d_big (the eigenvalue of X^T X carries the squared condition number)
+   LD XXt[2][2] = {{X[0][0] * X[0][0] + X[0][1] * X[0][1], X[0][0] * X[1][0] + X[0][1] * X[1][1]}, {X[0][0] * X[1][0] + X[0][1] * X[1][1], X[1][0] * X[1][0] + X[1][1] * X[1][1]}};
+   LD e2[2], U[2][2]; jacobi<2>(XXt, e2, U);
+   const int kb = d2[0] > d2[1] ? 0 : 1;
+   const LD dbig = sqrtl(d2[kb]), detX = X[0][0] * X[1][1] - X[0][1] * X[1][0];
    for (int k = 0; k < 2; ++k) {
-      if (!(d2[k] > 0)) { r.ok = false; return r; }
-      const LD d = sqrtl(d2[k]);
-      const LD u1 = (X[1][0] * V[k][0] + X[1][1] * V[k][1]) / d;
-      const LD cL = -g2 * V[k][0], cR = y * u1, x = d2[k] / msv2;
+      if (!(d2[kb] > 0)) { r.ok = false; return r; }
+      const LD d = k == kb ? dbig : fabsl(detX) / dbig;
+      if (!(d > 0)) { r.ok = false; return r; }
+      // the left vector belonging to v_k: the eigenvector of X X^T of the corresponding (larger / smaller) eigenvalue, sign from u^T X v = d > 0
+      const int ku = ((e2[0] > e2[1]) == (k == kb)) ? 0 : 1;
+      LD u0 = U[ku][0], u1 = U[ku][1];
+      const LD uXv = u0 * (X[0][0] * V[k][0] + X[0][1] * V[k][1]) + u1 * (X[1][0] * V[k][0] + X[1][1] * V[k][1]);
+      if (uXv < 0) { u0 = -u0; u1 = -u1; }
+      const LD cL = -g2 * V[k][0], cR = y * u1, x = d * d / msv2;
       const LD t1 = mm / (12 * msv2) * (cL * cL + cR * cR) * F(MPREF_F1C, x), t2 = 2 * d / (3 * msv2) * cL * cR * F(MPREF_F2C, x);
       r.cha += t1 + t2; r.s_cha += fabsl(t1) + fabsl(t2);
+      if (x > 0 && x < 10 * std::numeric_limits<double>::epsilon()) { r.dropped_cha += t2; r.cha_below_10eps = true; }
    }
    const LD pre = mm / (16 * PIl * PIl);
-   r.chi0 *= pre; r.cha *= pre; r.s_chi0 *= pre; r.s_cha *= pre;
+   r.chi0 *= pre; r.cha *= pre; r.s_chi0 *= pre; r.s_cha *= pre; r.dropped_cha *= pre;
    return r;
 }
 
@@ -82,8 +94,13 @@ static void check_mssm(const MSSMNoFV_onshell& m, const J& c, const std::string&
    const std::string cell = how + "|sgn" + (m.get_Mu() > 0 ? "+" : "-") + (m.get_MassB() > 0 ? "+" : "-") + (m.get_MassWB() > 0 ? "+" : "-") + "|tb" + vh::decade(m.get_TB());
    const double l0 = amu1LChi0(m), lc = amu1LChipm(m), lt = calculate_amu_1loop(m);
    compare("MSSM", "chi0", cell, l0, r.chi0, r.s_chi0, c);
-   compare("MSSM", "chipm", cell, lc, r.cha, r.s_cha, c);
-   compare("MSSM", "sum", cell, lt, r.chi0 + r.cha, r.s_chi0 + r.s_cha, c);
+   // known finding (the MSSM face of the THDM one below): F2C(x) returns its x = 0 convention (0) for 0 < x < 10 eps, which drops the m_chi F2C term of a chargino
+   // lighter than 4.7e-8 sneutrino masses (det X ~ 0 by accident).  The key of the finding is given only when the deviation is that dropped term (to 1e-8 of
+   // the term sum); anything else in the region keeps the plain key.
+   const std::string sc = (r.cha_below_10eps && std::isfinite(lc) && fabsl(lc - (r.cha - r.dropped_cha)) <= 1e-8L * r.s_cha) ? ":chargino-F2C-below-10eps" : "";
+   const std::string ss = (r.cha_below_10eps && std::isfinite(lt) && fabsl(lt - (r.chi0 + r.cha - r.dropped_cha)) <= 1e-8L * (r.s_chi0 + r.s_cha)) ? ":chargino-F2C-below-10eps" : "";
+   compare("MSSM", "chipm", cell, lc, r.cha, r.s_cha, c, sc);
+   compare("MSSM", "sum", cell, lt, r.chi0 + r.cha, r.s_chi0 + r.s_cha, c, ss);
 }
 
 static void case_mssm(vh::Rng& r) {
@@ -96,13 +113,23 @@ static void case_mssm(vh::Rng& r) {
    J c; c.str("model", "MSSM").d("tb", tb).d("mu", mu).d("M1", m1).d("M2", m2).arr("ml", ml, ml + 3).arr("me", me, me + 3).arr("Ae", Ae, Ae + 3);
    try { m.calculate_masses(); } catch (const Error&) { ++out->inconclusive; out->count("mssm-rejected"); return; }
    if (m.get_problems().have_problem()) { ++out->inconclusive; out->count("mssm-problem"); return; }
+   // a nearly massless chargino (2 % of the cases): mu moved to where the determinant of the chargino mass matrix vanishes, M2 mu = g2^2 vu vd / 2, up to 1e-14 .. 1e-3
+   if (r.chance(0.02)) {
+      const double mu0 = m.get_g2() * m.get_g2() * m.get_vu() * m.get_vd() / (2 * m2) * (1 + r.sign() * r.LU(1e-14, 1e-3));
+      m.set_Mu(mu0); c.d("mu", mu0).i("nearly_massless_chargino", 1);
+      try { m.calculate_masses(); } catch (const Error&) { ++out->inconclusive; out->count("mssm-rejected(nearly massless chargino)"); return; }
+      if (m.get_problems().have_problem()) { ++out->inconclusive; out->count("mssm-problem(nearly massless chargino)"); return; }
+      out->count("points with a nearly massless chargino");
+   }
    ++out->conclusive;
    check_mssm(m, c, "onshell-input");
    // non-resummed: the reference evaluates the converted copy's parameters
    try {
       MSSMNoFV_onshell t(m); t.convert_to_non_tan_beta_resummed();
       const Ref1L rr = mssm_ref(t.get_g1(), t.get_g2(), t.get_vd(), t.get_vu(), t.get_Mu(), t.get_MassB(), t.get_MassWB(), t.get_ml2(1, 1), t.get_me2(1, 1), std::sqrt(2.0) * t.get_MM() / t.get_vd(), (std::sqrt(2.0) * t.get_MM() / t.get_vd()) * t.get_Ae(1, 1), t.get_MM());
-      if (rr.ok) compare("MSSM", "non-tan-beta-resummed-sum", "onshell-input", calculate_amu_1loop_non_tan_beta_resummed(m), rr.chi0 + rr.cha, rr.s_chi0 + rr.s_cha, c);
+      if (rr.ok) { const double ln = calculate_amu_1loop_non_tan_beta_resummed(m);
+         const std::string sn = (rr.cha_below_10eps && std::isfinite(ln) && fabsl(ln - (rr.chi0 + rr.cha - rr.dropped_cha)) <= 1e-8L * (rr.s_chi0 + rr.s_cha)) ? ":chargino-F2C-below-10eps" : "";
+         compare("MSSM", "non-tan-beta-resummed-sum", "onshell-input", ln, rr.chi0 + rr.cha, rr.s_chi0 + rr.s_cha, c, sn); }
    } catch (const Error&) { out->count("non-resummed-spectrum-rejected"); }
    // a re-used object: the calculated model, some parameters changed through the setters (as in a scan loop), recalculated
    if (r.chance(0.25)) {
